@@ -200,3 +200,20 @@ func lockAndDelegate(k string) int {
 }
 
 func peek(k string) int { return table[k] }
+
+// ---- plain counting loops: the index is never below its start
+func indexLoop(a []int) int {
+	s := 0
+	for i := 0; i < len(a); i++ {
+		s += a[i]
+	}
+	return s
+}
+
+func indexLoopFromMinusOne(a []int) int {
+	s := 0
+	for i := -1; i < len(a); i++ {
+		s += a[i] // panics in the first iteration
+	}
+	return s
+}
